@@ -573,6 +573,10 @@ impl World {
         if let Some((n, suffix)) = name.split_once('+') {
             return format!("{}{}", self.a(n), suffix);
         }
+        // "upper:name": the same address in upper case (a different account as far as the chain is concerned)
+        if let Some(n) = name.strip_prefix("upper:") {
+            return self.a(n).to_uppercase();
+        }
         self.addr.get(name).cloned().unwrap_or_else(|| name.to_string())
     }
 
